@@ -21,7 +21,7 @@ SETS_Q = [["DE", "UE", "TE"], ["DE", "DE", "SU"], ["TE", "SD", "UE"]]
 SETS_T = SETS_Q + [["TE", "TE", "DE"], ["UE", "UE", "UE"], ["SD", "SD", "DE"], ["DE", "UE", "TE", "DE"]]
 BOUNDS = {"quick": {"vertices": 3, "links": 3, "class_multisets": len(SETS_Q)},
           "thorough": {"vertices": 3, "links": "3-4", "class_multisets": len(SETS_T)}}
-TIME_BUDGET = {"quick": 300, "thorough": 2400}
+TIME_BUDGET = {"quick": 300, "thorough": 1200}
 STUBS = ["filterfunc -> uninterpreted function ff(link): Bool"]
 ASSUMPTIONS = [
     "unknown_handling ranges over the three documented constants; direction_sensitive is a bool",
